@@ -443,7 +443,16 @@ impl TypeScript {
 }
 
 fn typescript_property_aware_rename(name: &str) -> String {
-    if name.chars().any(|c| c == '-') {
+    // A property name is written bare only if it is an identifier: a wire name with a dash
+    // or a leading digit ("2fa") has to be quoted.
+    let is_identifier = name
+        .chars()
+        .next()
+        .is_some_and(|c| c.is_alphabetic() || c == '_' || c == '$')
+        && name
+            .chars()
+            .all(|c| c.is_alphanumeric() || c == '_' || c == '$');
+    if !is_identifier {
         return format!("{:?}", name);
     }
     name.to_string()
